@@ -8,6 +8,7 @@ import (
 	"encoding/hex"
 	"fmt"
 	"hash/crc32"
+	"runtime"
 	"strings"
 	"time"
 
@@ -196,9 +197,13 @@ func runHostile(c *ctx) error {
 	}
 	kinds := map[string]int{}
 	outcomes := map[string]int{}
+	var maxAlloc uint64
+	maxAllocKind := ""
 	do := func(kind string, data []byte, qs []string) {
 		kinds[kind]++
 		var parts []string
+		var m0, m1 runtime.MemStats
+		runtime.ReadMemStats(&m0)
 		rd, ores := openReader(data)
 		parts = append(parts, ores)
 		if rd != nil {
@@ -206,6 +211,15 @@ func runHostile(c *ctx) error {
 				q := q
 				parts = append(parts, withTimeout(func() string { return runQuery(rd, q) }))
 			}
+		}
+		runtime.ReadMemStats(&m1)
+		// allocation must stay proportional to the input (what zlib can expand a stream to is
+		// itself linear in the stream): everything allocated while opening and querying
+		if alloc := m1.TotalAlloc - m0.TotalAlloc; alloc > 64<<20+uint64(len(qs)+1)*4096*uint64(len(data)) {
+			parts = append(parts, fmt.Sprintf("alloc(%dMB)", alloc>>20))
+		} else if alloc > maxAlloc {
+			maxAlloc = alloc
+			maxAllocKind = fmt.Sprintf("%s (%d input bytes, %d queries)", kind, len(data), len(qs))
 		}
 		for _, p := range parts {
 			switch {
@@ -377,6 +391,8 @@ func runHostile(c *ctx) error {
 			do(kind, b, qs)
 		}
 	}
+	c.stats["max_bytes_allocated_by_one_case"] = maxAlloc
+	c.stats["max_bytes_allocated_by"] = maxAllocKind
 	c.stats["mutation_kinds"] = kinds
 	c.stats["outcome_classes"] = outcomes
 	return nil
